@@ -13,7 +13,7 @@ import core, build
 from core import Check, InfraError, SPEC, VERIF
 
 DATA = os.path.join(VERIF, "data")
-LABELS = ["before_thread_start", "go_entry", "after_init", "after_reset", "iter_start", "iter_end", "before_best"]
+LABELS = ["before_thread_start", "go_entry", "after_init", "after_reset", "iter_start", "iter_end", "before_best", "limits"]
 
 
 def all_roots(ck, names=("roots_general.fen", "roots_special.fen", "roots_lowmat.fen", "roots_mate.fen")):
@@ -166,6 +166,8 @@ def c05(tier):
     for lab in LABELS:
         for rep in range(12 if full else 2):
             p = rnd.choice(quiet)
+            if lab == "limits":
+                p = rnd.choice([q for q in quiet if q["n"] >= 15 and q["src"] != "sparse"] or quiet)
             plan.append(plan_line(p["fen"], "infinite" if lab != "before_best" else "depth 2", tt="fresh", stop_id=lab, stop_n=1 if lab in LABELS[:4] + ["before_best"] else rnd.randint(1, 3), tag="early"))
     for k in range(1, K + 1):
         p = rnd.choice(quiet)
@@ -220,7 +222,7 @@ def c06(tier):
     full = tier == "thorough"
     rnd = random.Random(core.seed())
     ck.cov["design"] = design(ck)
-    ck.cov["design_as_written"] = design_as_written(ck, ["lost_stop"])
+    ck.cov["design_as_written"] = design_as_written(ck, ["lost_stop", "poll_overwrites"])
     pool = make_pool(ck, exe, 200 if full else 30, 300 if full else 100)
     busy = [p for p in pool if p["n"] >= 15 and p["src"] != "sparse"] or pool
     others = {}
@@ -241,11 +243,11 @@ def c06(tier):
     take_crashes(ck, "C06", info, others)
     # (2) the real two threads: searcher parked at a label by the scheduler, isready and stop delivered by the real reader
     splan = []
-    labels_b = ["thread_start", "go_entry", "after_init", "after_reset", "iter_start", "node", "qnode", "iter_end", "before_best"]
+    labels_b = ["thread_start", "go_entry", "after_init", "after_reset", "iter_start", "node", "qnode", "iter_end", "before_best", "limits"]
     for lab in labels_b:
         for rep in range(6 if full else 2):
             p = rnd.choice(busy)
-            n = 1 if lab in ("thread_start", "go_entry", "after_init", "after_reset", "before_best") else rnd.choice([1, 2, 5, 50, 400])
+            n = 1 if lab in ("thread_start", "go_entry", "after_init", "after_reset", "before_best") else (rnd.choice([1, 2]) if lab == "limits" else rnd.choice([1, 2, 5, 50, 400]))
             go = "depth 3" if lab == "before_best" else "infinite"
             splan.append("%s|%s|%s|%d|%s|threads" % (p["fen"], go, lab, n, rnd.choice(["isready,stop", "stop", "isready,stop,isready"])))
     for rep in range(20 if full else 4):      # isready only, the search then ends by its depth limit
